@@ -85,6 +85,27 @@ Conforms(i, obs) ==
        /\ obs.stderr
        /\ obs.created = <<>> /\ obs.modified = <<>>
 
+\* ---- display actions: options that make a compiler print an intermediate form instead of writing a binary.  Listed in stage
+\* order: each shows the result of one more pass.  For one source, res[k] is what action k did - [status, stderr, stdout (non-empty),
+\* created, modified] - and bin what the plain invocation did.
+\*   * a display action writes no file at all;
+\*   * it ends in Accept (status 0, no diagnostic, something shown) or in Reject (status 1..255 and a diagnostic);
+\*   * what an earlier stage rejects no later stage accepts, and the binary is written exactly when every stage accepts.
+\* Named deviation InstsAsmShowsTree: xcmp maps --insts-asm ("display the assembled instructions") to the action of --tree
+\* (xcmp.cpp); it is therefore listed next to --tree, where its behaviour belongs, and not after -S.
+XcmpActions == <<"--tokens", "--tree", "--insts-asm", "--tree-opt", "--insts", "--insts-lowered", "--insts-optimised", "-S">>
+HexasmActions == <<"--tokens", "--instrs">>
+ActionsOf(tool) == IF tool = "xcmp" THEN XcmpActions ELSE HexasmActions
+ActionsConform(tool, res, bin) ==
+  LET n == Len(ActionsOf(tool)) IN
+  /\ Len(res) = n
+  /\ \A k \in 1..n : res[k].created = <<>> /\ res[k].modified = <<>>
+  /\ \A k \in 1..n : \/ (res[k].status = 0 /\ ~res[k].stderr /\ res[k].stdout)
+                      \/ (res[k].status \in 1..255 /\ res[k].stderr)
+  /\ \A j, k \in 1..n : (j < k /\ res[j].status # 0) => res[k].status # 0
+  /\ (bin.status = 0) => \A k \in 1..n : res[k].status = 0
+  /\ (\E k \in 1..n : res[k].status # 0) => bin.status # 0
+
 \* the same contract for the compiler / assembler entry points called in process (C09 / C10):
 \* obs = [status, wrote, diag]; status "crash", "timeout", "sanitizer", "missing" are not outcomes of this spec
 LibConforms(obs) == \/ (obs.status = "accepted" /\ obs.wrote /\ ~obs.diag)
